@@ -94,6 +94,19 @@ def dev_stream(data, n_from, n):
 
 # ----------------------------------------------------------------------------- plans
 
+# Seeds (found by an offline search over 2^21..2^23 candidates each) whose instantiated V is within 2000 of a wrap of
+# its low 32 bits (the last two: of its low 24 bits): a long request right after such a seed carries out of the low
+# word of the block counter inside the output loop - an event of probability 2^-21 per maximal request otherwise.
+WRAP_SEEDS = [
+    '010101010101010100000000001f527f',
+    '02020202020202020202020202020202020202020202020200000000000e6dd6',
+    '0404040404040404040404040404040404040404040404040404040404040404040404040404040404040404040404040404040404040404000000000014bc8b',
+    '07070707070707070707070707070707000000000012b21c',
+    '080808080808080808080808080808080808080808080808080808080808080800000000002a3c67',
+    '05050505050505050000000000000c2c',
+    '0606060606060606060606060606060606060606060606060000000000000288',
+]
+
 def _carry_seed(rng, ln):
     """Searches a seed whose instantiated V has 0xFF just above the low 32 bytes, so that the
     first generates exercise multi-byte carry propagation into the upper part of V."""
@@ -133,7 +146,11 @@ def gen_plan(rng, tier, config, opts):
             return _carry_seed(rng, ln).hex()
         return rng.bytes(ln).hex()
 
-    if start == 'seed':
+    if start == 'seed' and rng.chance(0.08):
+        # the block counter of the output loop wraps its low word during the first (long) request
+        lines.append('SEED ' + rng.choice(WRAP_SEEDS))
+        lines.append('GEN %d' % rng.choice([65536, 65536, 65535, 60000]))
+    elif start == 'seed':
         lines.append('SEED ' + seed_hex())
     elif start == 'init':
         lines.append(dev_line())
